@@ -523,7 +523,7 @@ impl TypeChecker {
                 }
             }
             While(c, b) => {
-                let mut diverges =
+                let diverges =
                     self.expr(scope, &ctx.with_type(Type::bool()), c)?;
 
                 let idx = self.while_counter;
@@ -534,7 +534,10 @@ impl TypeChecker {
                     .scope_graph
                     .wrap(scope, ScopeType::WhileBody(idx));
 
-                diverges |= self.block(body_scope, ctx, b)?;
+                // The body might never run (the condition can be false the
+                // first time), so an exit in the body does not make the loop
+                // diverge.
+                self.block(body_scope, ctx, b)?;
                 self.unify(&ctx.expected_type, &Type::unit(), id, None)?;
 
                 Ok(diverges)
@@ -543,7 +546,7 @@ impl TypeChecker {
                 let element_ty = self.fresh_var();
                 let list_ty = Type::list(&element_ty);
 
-                let mut diverges =
+                let diverges =
                     self.expr(scope, &ctx.with_type(list_ty), e)?;
 
                 let idx = self.for_counter;
@@ -556,7 +559,8 @@ impl TypeChecker {
 
                 self.insert_var(body_scope, name.clone(), element_ty)?;
 
-                diverges |= self.block(body_scope, ctx, b)?;
+                // The list might be empty: the body does not have to run.
+                self.block(body_scope, ctx, b)?;
                 self.unify(&ctx.expected_type, &Type::unit(), id, None)?;
 
                 Ok(diverges)
